@@ -327,12 +327,19 @@ def _tr_expr(e: ast.AST, strs: typing.Set[str], lists: typing.Set[str]) -> typin
             return '(%s ++ %s)' % (a, b), 'str'
         raise Unsupported('do_lineprefix: + on non-strings')
     if isinstance(e, ast.IfExp):
-        if not (isinstance(e.test, ast.Name) and e.test.id in strs):
-            raise Unsupported('do_lineprefix: conditional test is not a string variable')
+        t = e.test
+        if isinstance(t, ast.Name) and t.id in strs:
+            test = 'py_truthy %s' % t.id
+        elif (isinstance(t, ast.Subscript) and isinstance(t.slice, ast.Constant) and t.slice.value == 0 and isinstance(t.value, ast.Call)
+              and isinstance(t.value.func, ast.Attribute) and t.value.func.attr == 'splitlines' and not t.value.args and not t.value.keywords
+              and isinstance(t.value.func.value, ast.Name) and t.value.func.value.id in strs):
+            test = 'py_truthy (py_line_content %s)' % t.value.func.value.id     # <line>.splitlines()[0]: the line without its terminator
+        else:
+            raise Unsupported('do_lineprefix: conditional test is neither a string variable nor <line>.splitlines()[0]')
         a, ta = _tr_expr(e.body, strs, lists)
         b, tb = _tr_expr(e.orelse, strs, lists)
         if ta == tb == 'str':
-            return '(if py_truthy %s then %s else %s)' % (e.test.id, a, b), 'str'
+            return '(if %s then %s else %s)' % (test, a, b), 'str'
         raise Unsupported('do_lineprefix: conditional branches')
     if (isinstance(e, ast.Call) and isinstance(e.func, ast.Name) and e.func.id in ('soft_unicode', 'soft_str', 'str', 'text_type')
             and len(e.args) == 1 and not e.keywords):
@@ -343,6 +350,8 @@ def _tr_expr(e: ast.AST, strs: typing.Set[str], lists: typing.Set[str]) -> typin
         recv, tr = _tr_expr(e.func.value, strs, lists)
         if e.func.attr == 'splitlines' and not e.args and tr == 'str':
             return '(py_splitlines %s)' % recv, 'list'
+        if (e.func.attr == 'splitlines' and len(e.args) == 1 and isinstance(e.args[0], ast.Constant) and e.args[0].value is True and tr == 'str'):
+            return '(py_splitlines_keep %s)' % recv, 'list'
         if e.func.attr == 'join' and len(e.args) == 1 and tr == 'str':
             a = e.args[0]
             if isinstance(a, (ast.GeneratorExp, ast.ListComp)) and len(a.generators) == 1 and not a.generators[0].ifs \
@@ -408,7 +417,15 @@ def translate_lineprefix(mod: ast.Module) -> str:
     if ret is None:
         raise Unsupported('do_lineprefix: no return')
     body = ''.join('  let %s : %s := %s in\n' % (n, 'str' if t == 'str' else 'list str', v) for n, v, t in lets)
-    return 'Definition do_lineprefix (s prefix : str) : str :=\n%s  %s.\n' % (body, ret)
+    text = ast.unparse(fn)
+    keep = 'splitlines(True)' in text
+    soft = any(isinstance(n, ast.Call) and isinstance(n.func, ast.Name) and n.func.id in ('soft_unicode', 'soft_str', 'str', 'text_type')
+               and len(n.args) == 1 and isinstance(n.args[0], ast.Name) and n.args[0].id == 's' for n in ast.walk(fn))
+    return ('Definition do_lineprefix (s prefix : str) : str :=\n%s  %s.\n'
+            '(* true: the lines keep their terminators (splitlines(True); design_notes/C19_lineprefix_terminator_fix.patch) *)\n'
+            'Definition lineprefix_keepends : bool := %s.\n'
+            '(* true: the value is converted to text first (fix 6038635), so any printed value can be auto-indented *)\n'
+            'Definition lineprefix_soft_unicode : bool := %s.\n' % (body, ret, 'true' if keep else 'false', 'true' if soft else 'false'))
 
 
 # ---------------------------------------------------------------------------------------------
@@ -482,7 +499,26 @@ def translate_autoindent(mod: ast.Module) -> str:
             'Definition autoindent_filter_name : str := %s.\n'
             'Definition autoindent_marker_char : N := %d%%N.\n'
             '(* true: the marker test and the prefix are computed from the environment start strings (delimiter-aware patch) *)\n'
-            'Definition autoindent_delimiter_aware : bool := %s.\n' % (drop, _coq_str(fm.group(1)), ord('*'), 'true' if aware else 'false'))
+            'Definition autoindent_delimiter_aware : bool := %s.\n'
+            "(* true: a print statement whose marker is directly followed by the operator '-' is a syntax error (C19_marker_minus_fix.patch) *)\n"
+            'Definition autoindent_minus_guard : bool := %s.\n'
+            % (drop, _coq_str(fm.group(1)), ord('*'), 'true' if aware else 'false', 'true' if _minus_guard(sub) else 'false'))
+
+
+MINUS_GUARD_TEST = "self.stream.current.type == 'sub' and marker_start(token, (self.environment.variable_start_string,)) is not None"
+
+
+def _minus_guard(sub: ast.FunctionDef) -> bool:
+    """the optional guard in the variable_begin branch; any other statement mentioning marker_start is rejected elsewhere"""
+    guards = [n for n in ast.walk(sub) if isinstance(n, ast.If) and ast.unparse(n.test) == MINUS_GUARD_TEST]
+    if not guards:
+        return False
+    g = guards[0]
+    ok = (len(guards) == 1 and not g.orelse and len(g.body) == 1 and isinstance(g.body[0], ast.Expr) and isinstance(g.body[0].value, ast.Call)
+          and ast.unparse(g.body[0].value.func) == 'self.fail' and len(g.body[0].value.args) == 2 and ast.unparse(g.body[0].value.args[1]) == 'token.lineno')
+    if not ok:
+        raise Unsupported('subparse: the minus guard changed shape')
+    return True
 
 
 # ---------------------------------------------------------------------------------------------
@@ -777,6 +813,9 @@ class _Demark(ast.NodeTransformer):
             if isinstance(st, ast.Assign) and ast.unparse(st.targets[0]) == 'start' and ast.unparse(st.value).startswith('marker_start(token, '):
                 self.removed.append('start = marker_start')
                 continue
+            if isinstance(st, ast.If) and ast.unparse(st.test) == MINUS_GUARD_TEST:
+                self.removed.append('minus guard')
+                continue
             if isinstance(st, ast.If) and ast.unparse(st.test) in (MARK_TEST, 'start is not None'):
                 self.removed.append('if marker: ' + ast.unparse(st.body[0]).replace(', start)', ')'))
                 if st.orelse:
@@ -864,7 +903,8 @@ def gen_jinjapins() -> typing.Tuple[bool, str]:
         ast.fix_missing_locations(bsub)
         legacy_set = ['def autoindent', 'if marker: rv = autoindent(rv, token)',
                       'if marker: body.append(autoindent(rv if isinstance(rv, list) else [rv], token))']
-        if sorted(dm.removed) not in (sorted(legacy_set), sorted(legacy_set + ['def marker_start', 'start = marker_start', 'start = marker_start'])):
+        aware_set = legacy_set + ['def marker_start', 'start = marker_start', 'start = marker_start']
+        if sorted(dm.removed) not in (sorted(legacy_set), sorted(aware_set), sorted(aware_set + ['minus guard'])):
             raise Unsupported('Parser.subparse: the set of marker-specific statements changed: %r' % (dm.removed,))
         parts = [
             '(* Parser.subparse of the bundled parser with the three marker-specific pieces removed, and the stock method *)\n'
